@@ -319,9 +319,18 @@ func genChainOp(t *rapid.T, healthyPossible bool) chainOp {
 		o.mustErr = true
 		return o
 	case 18:
-		k := rapid.IntRange(0, 7).Draw(t, "unknownname")
+		k := rapid.IntRange(0, 9).Draw(t, "unknownname")
 		vc := validName(t, "vc")
+		badRe := rapid.SampledFrom([]string{"a(b", "[a", "a**", "%a(b%", "a{2,1}", "%a)", "(", "a(b%"}).Draw(t, "badregexp")
+		likeComp := rapid.SampledFrom([]string{"like", "ilike"}).Draw(t, "badlikecomp")
 		ops := []chainOp{
+			{desc: fmt.Sprintf("%s with the invalid regular expression %q on a string column", likeComp, badRe), run: func(qf qframe.QFrame) qframe.QFrame {
+				return qf.Apply(qframe.Instruction{Fn: "x(y", DstCol: "ts"}).Filter(qframe.Filter{Column: "ts", Comparator: likeComp, Arg: badRe})
+			}},
+			{desc: fmt.Sprintf("%s with the invalid regular expression %q inside Not(Or(...))", likeComp, badRe), run: func(qf qframe.QFrame) qframe.QFrame {
+				return qf.Apply(qframe.Instruction{Fn: "x(y", DstCol: "ts"}).Filter(qframe.Not(qframe.Or(
+					qframe.Filter{Column: "ts", Comparator: "=", Arg: "q"}, qframe.Filter{Column: "ts", Comparator: likeComp, Arg: badRe, Inverse: true})))
+			}},
 			{desc: "unknown comparator", run: func(qf qframe.QFrame) qframe.QFrame {
 				return qf.Filter(qframe.Filter{Column: vc, Comparator: "foo", Arg: 1})
 			}},
